@@ -62,7 +62,8 @@ def pairs_search(name, ds, depth):
     d0 = np.unique(fitted0.pair_distance(P))
     d0 = d0[d0 > 0]
     picks = [d0[0], d0[len(d0) // 2], d0[-1]]
-    thr = [-1.0, 0.0, np.inf]
+    d32 = np.unique(fitted0.pair_distance(P.astype(np.float32)))
+    thr = [-1.0, 0.0, np.inf, float(d32[len(d32) // 2])]        # incl. a threshold equal to a float32-pair distance
     for x in picks:
         thr += [float(x), float(np.nextafter(x, 0)), float(x * (1 - 1e-7))]
     vsets = [(ds.pairs[::2], ds.ypairs[::2]), (np.concatenate([P[:20], ds.pairs[1::2]]),
@@ -132,6 +133,13 @@ def pairs_search(name, ds, depth):
             v.append(V(site, 'predict_values', 'predict returns values outside {-1,+1}', tr))
         if not np.array_equal(dec, -d):
             v.append(V(site, 'decision_function', 'decision_function is not exactly -pair_distance', tr))
+        # single-precision test pairs: the same three identities, each within float32 inputs
+        P32 = P.astype(np.float32)
+        d32 = est.pair_distance(P32)
+        if not np.array_equal(est.decision_function(P32), -d32):
+            v.append(V(site, 'decision_function', 'float32 pairs: decision_function is not exactly -pair_distance', tr + ['float32']))
+        if not np.array_equal(est.predict(P32), np.where(d32 <= t, 1, -1)):
+            v.append(V(site, 'predict', 'float32 pairs: predict is not (pair_distance <= threshold_)', tr + ['float32']))
         # index form through the preprocessor: identical outputs
         if not (np.array_equal(est.predict(idx), pred) and np.array_equal(est.decision_function(idx), dec)):
             v.append(V(site, 'index_form', 'predict / decision_function differ between formed pairs and indices', tr))
